@@ -56,6 +56,10 @@ func RunSolo(t *rapid.T, test string) {
 		if x < 0 {
 			return types.BlockID{}
 		}
+		if rapid.IntRange(0, 5).Draw(t, label+".twist") == 0 {
+			// a block id that shares only its hash, or only its part-set header, with a block the validator may hold
+			return twistPSH(t, c[x].id, label)
+		}
 		return c[x].id
 	}
 	for step := 0; step < steps && !crashed; step++ {
